@@ -47,9 +47,22 @@ def drop_slot(k):
     sh("git -C /repo worktree prune")
 
 
+BENIGN_CHECKS = {
+    "benign/B7-agent": ["C01", "C02", "C04", "C05", "C12", "C14"],
+    "benign/B8-agent": ["C09", "C10", "C08", "C11"],
+    "benign/B9-agent": ["C08", "C11", "C13"],
+    "benign/B10-agent": ["C05", "C07", "C15", "C16", "C06", "C17"],
+    "benign/B1-batch-limit": ["C01", "C04"],
+    "benign/B2-cloud-read-latest-first": ["C09", "C10"],
+    "benign/B6-commit-ops-first": ["C05", "C07"],
+}
+
+
 def seed_checks(sid, override):
     if override:
         return override
+    if sid in BENIGN_CHECKS:
+        return BENIGN_CHECKS[sid]
     meta = json.load(open(f"{VERIF}/seeded/{sid}/meta.json"))
     p = meta.get("property") or meta.get("breaks") or ""
     return [c.strip() for c in re.split(r"[,\s]+", p) if re.fullmatch(r"C\d\d", c.strip())]
@@ -65,6 +78,8 @@ def worker(k, q, results, tier, lock, logdir):
         except queue.Empty:
             break
         patch = f"{VERIF}/seeded/{sid}/patch.diff" if sid != "BASE" else None
+        if sid.startswith("benign/"):      # behaviour-preserving change: every check must stay silent
+            patch = f"{VERIF}/{sid}/patch.diff"
         rec = {"seed": sid, "checks": {}, "at_verif": sh(f"git -C {VERIF} rev-parse --short HEAD").stdout.strip()}
         if patch:
             r = sh(f"git -C {d}/repo apply {patch}")
@@ -75,7 +90,7 @@ def worker(k, q, results, tier, lock, logdir):
                 continue
         for c in checks:
             t0 = time.time()
-            log = f"{logdir}/{sid}-{c}.log"
+            log = f"{logdir}/{sid.replace('/', '_')}-{c}.log"
             with open(log, "w") as f:
                 p = subprocess.run(["bin/check", c, "--tier", tier], cwd=f"{d}/verif", env=env,
                                    stdout=f, stderr=subprocess.STDOUT)
@@ -130,7 +145,9 @@ def main():
     old = json.load(open(out)) if os.path.exists(out) else {}
     old.update(results)
     json.dump(old, open(out, "w"), indent=1, sort_keys=True)
-    missed = [s for s, r in results.items() if s != "BASE" and not any(c["rc"] == 1 and c["violations"] for c in r["checks"].values())]
+    alarms = [s for s, r in results.items() if s.startswith("benign/") and any(c["rc"] != 0 for c in r["checks"].values())]
+    print("ALARMS-ON-BENIGN:", " ".join(sorted(alarms)) or "none")
+    missed = [s for s, r in results.items() if s != "BASE" and not s.startswith("benign/") and not any(c["rc"] == 1 and c["violations"] for c in r["checks"].values())]
     print("MISSED:", " ".join(sorted(missed)) or "none")
 
 
